@@ -121,7 +121,16 @@ def do(srv, uid, op):
         raise ValueError(op)
     if tok is None:
         tok = "inv" if (r.status_code == 500 and b"valid instance id" in r.data) else f"http{r.status_code}"
-    return tok, (r.status_code, r.data.decode(errors="replace"))
+    return tok, (r.status_code, canon_body(r.data))
+
+
+def canon_body(data):
+    """response body with dictionary order canonicalised (the equations of a step come out in hash order)."""
+    txt = data.decode(errors="replace")
+    try:
+        return json.dumps(json.loads(txt), sort_keys=True)
+    except Exception:
+        return txt
 
 
 def op_code(i, op):
@@ -341,13 +350,13 @@ def _run(chk, srvs):
     for lists in short_sets:
         ms = list(merges(lists))
         if chk.quick:
-            ms = rng.shuffle(ms)[:12]
+            ms = rng.shuffle(ms)[:25]
         for seq in ms:
             for st in STYLES:
                 if st == "sharedBase" and (chk.quick and rng.chance(2, 3)):
                     continue
                 cases.append((st, lists, seq)); dist["exhaustive_merges"] += 1
-    for n in range(40 if chk.quick else 600):
+    for n in range(150 if chk.quick else 1200):
         k = rng.range(2, 3)
         lists = [gen_list(rng, long=not chk.quick) for _ in range(k)]
         st = "fresh" if rng.chance(3, 4) else "sharedBase"
